@@ -2,6 +2,7 @@
 import io
 import re
 from rbql import rbql_csv
+from rbql import rbql_engine
 import c10 as W
 
 
@@ -18,7 +19,12 @@ def read_text(text, enc, dlm, pol, comment_prefix=None, has_header=False):
                 nums = [int(x) for x in m.groups()]
         return {'records': recs, 'header': it.get_header(), 'warnings': W.warn_kinds(ws), 'fields': nums, 'error': None}
     except Exception as e:
-        return {'records': None, 'header': None, 'warnings': None, 'fields': None, 'error': 'IO' if 'IOHandling' in type(e).__name__ else type(e).__name__}
+        # "... the same error class": by exception type AND as the public classifier (exception_to_error_info) reports it
+        name = type(e).__name__
+        kind = rbql_engine.exception_to_error_info(e)[0]
+        if 'IOHandling' in name and kind != 'IO handling':
+            return {'records': None, 'header': None, 'warnings': None, 'fields': None, 'error': 'exception_to_error_info says %r for a %s' % (kind, name)}
+        return {'records': None, 'header': None, 'warnings': None, 'fields': None, 'error': 'IO' if 'IOHandling' in name else name}
 
 
 def run_case(c):
